@@ -61,6 +61,10 @@ CHECKS = {
    technique="ClientImpl.tla with connection failure, session cancel, per-call cancel and a misbehaving peer (unsolicited, repeated-tag, wrong-typed replies) checked by TLC (safety + liveness 'down ~> all calls return'); fault schedules replayed on the real CSession in-process with crash detection; traces validated by TLC",
    text="TLC checks that no peer behaviour reaches a crashed state (the as-is model with FixUnknown=FALSE must reach it: vacuity guard) and that once the connection is down every started and later call returns. Schedules from TLC (incl. the as-is counterexample) run against the real client with 6 fault kinds (peer close, read error, impossible length prefix, undecodable frame, stream cut mid-frame, session context cancel), unsolicited / repeated-tag / wrong-typed replies and per-call cancels; a harness crash with a p9p stack is a violation, a call not returning within 5 s is a violation with the goroutine dump, and TLC validates the traces (wrong-typed reply => error, ctx error only after cancel, no spurious failures).",
    note="Trusted: as C05. Each batch runs in one process: the first crash ends the batch (the crash is the verdict). Write-deadline scenarios (peer stops reading) are not exercised."),
+ "C16": dict(engine="path", cat="exploration", ref="5 C16",
+   technique="path helpers specified in TLA+ by stepwise resolution on component sequences (PathRes.tla); TLC checks the lemmas (canonical, never above root, idempotent, agreement) over the bounded input space and emits the expected result of every input; the real helpers are compared on all of them",
+   text="A pure function with rich case analysis, transcribed from the property text. TLC enumerates every canonical directory of depth <=3 over {a,b} and every name list of length <=3/4 over a 12-symbol alphabet containing all special forms, proves the spec-level lemmas on that space and prints Valid / Normalize / WalkName / CreateName results; the harness requires the real ValidPath, NormalizePath (also: argument not modified, idempotent), WalkName and CreateName to agree on every one. Exhaustive within alphabet and bounds.",
+   note="Trusted: PathRes.tla. Separator detection is by membership in the alphabet's separator-bearing names ('a/b', 'a\\b', '/'), not over all strings. ToWalk is not covered."),
 }
 
 NA_REASON = "check not built yet in this round; planned per DESIGN.md section 5 (specification exists or is planned, no verdict is claimed)"
